@@ -588,19 +588,25 @@ def pipeline(ctx, add):
                             if got_w != want_w:
                                 ctx.fail('jigg_token_list', f'{where} {name}: the result carries the token list {got_w[:12]} ({len(got_w)} tokens) for a derivation over {want_w[:12]} ({len(want_w)} tokens)', data)
                 ctx.count('oracle:jigg_readback_trees', len(flat))
-            # ccg2lambda
+            # ccg2lambda.  build_ccg_tree is a READER of the sentence: it is asked more than once for the same <ccg> (semantic assignment, then
+            # visualisation / proof scripts), so (a) the document it reads is byte-for-byte what it was, (b) the sentence is still
+            # self-contained after building, (c) a second build from the same <ccg> gives the same (isomorphic) tree.
+            doc_before = etree.tostring(root, encoding='unicode')
+            doc_damaged = False
             for si, sent in enumerate(root.xpath('./document/sentences/sentence')):
                 tok_ids = [t.get('id') for t in sent.xpath('./tokens/token')]
                 for ci, ccg in enumerate(sent.xpath('./ccg')):
+                    ccg_in = infoset(ccg)            # what the builder is given (the model gets exactly this)
+                    sent_before = etree.tostring(sent, encoding='unicode')
                     try:
                         built = build_ccg_tree(ccg)
                     except Exception as e:      # noqa
                         built = 'err'
                         ctx.fail('build_ccg_tree_raised', f'{where}: sentence {si} ccg {ci}: {type(e).__name__}: {e}', data)
                     if built == 'err':
-                        add(lambda E: f'ChkBct {E.elem(infoset(ccg))} None', ('bct', where))
+                        add(lambda E: f'ChkBct {E.elem(ccg_in)} None', ('bct', where))
                         continue
-                    add(lambda E: f'ChkBct {E.elem(infoset(ccg))} (Some {E.opt(None if built is None else infoset(built), E.elem)})', ('bct', where, si, ci))
+                    add(lambda E: f'ChkBct {E.elem(ccg_in)} (Some {E.opt(None if built is None else infoset(built), E.elem)})', ('bct', where, si, ci))
                     if built is None:
                         ctx.fail('build_ccg_tree_none', f'{where}: sentence {si} ccg {ci}: build_ccg_tree returned None', data)
                     else:
@@ -610,6 +616,36 @@ def pipeline(ctx, add):
                         if built.get('root') != 'true':
                             ctx.fail('build_ccg_tree_root', f'{where}: sentence {si} ccg {ci}: built tree is not rooted at the root span', data)
                     ctx.count('oracle:build_ccg_tree')
+                    # (a) the sentence that was read is unchanged
+                    first = None if built is None else infoset(built)
+                    sent_after = etree.tostring(sent, encoding='unicode')
+                    if sent_after != sent_before:
+                        doc_damaged = True
+                        ctx.fail('build_ccg_tree_changed_the_document',
+                                 f'{where}: sentence {si} ccg {ci}: the <sentence> serialises differently after build_ccg_tree '
+                                 f'({sent_before.count("<span")} <span> elements before, {sent_after.count("<span")} after; '
+                                 f'{len(ccg_in[2])} spans in this <ccg> before, {len(ccg.xpath("./span"))} after)', data)
+                    # (c) building again from the same <ccg>: no exception, the same tree, still isomorphic to the derivation
+                    for attempt in (2, 3):
+                        try:
+                            again = build_ccg_tree(ccg)
+                        except Exception as e:      # noqa
+                            ctx.fail('build_ccg_tree_not_repeatable', f'{where}: sentence {si} ccg {ci}: build_ccg_tree call #{attempt} on the same <ccg> raised '
+                                     f'{type(e).__name__}: {e}', data)
+                            break
+                        if (None if again is None else infoset(again)) != first:
+                            ctx.fail('build_ccg_tree_not_repeatable', f'{where}: sentence {si} ccg {ci}: build_ccg_tree call #{attempt} on the same <ccg> gives another tree '
+                                     f'than call #1', data)
+                            break
+                        if again is not None:
+                            iso(again, snaps[si][ci], lang, use_symbol, tok_ids, 0, f'{where} sentence {si} ccg {ci} (build #{attempt})', data)
+                        ctx.count('oracle:build_ccg_tree_repeat')
+            # (a) for the whole document, (b) the self-containedness checks once more on the document that has been read
+            if not doc_damaged and etree.tostring(root, encoding='unicode') != doc_before:
+                ctx.fail('build_ccg_tree_changed_the_document', f'{where}: the Jigg XML document serialises differently after the build_ccg_tree calls', data)
+            jigg_wellformed(root, snaps, use_symbol, where + ' [after build_ccg_tree]', data)
+            ctx.count('oracle:jigg_wellformed_after_build')
+            for si, sent in enumerate(root.xpath('./document/sentences/sentence')):
                 # token normalisation
                 toks = copy.deepcopy(sent.xpath('./tokens')[0])
                 before = [dict(t.attrib) for t in toks]
@@ -838,6 +874,7 @@ def run(ctx):
             if m is None:
                 continue
             el = build_etree(m)
+            el_in = infoset(el)         # the input as given (the model is run on this, whatever the builder does to `el`)
             try:
                 built = build_ccg_tree(el)
                 exp = lambda E, built=built: f'(Some {E.opt(None if built is None else infoset(built), E.elem)})'
@@ -845,7 +882,7 @@ def run(ctx):
             except Exception as e:      # noqa
                 exp = lambda E: 'None'
                 ctx.count(f'malformed:bct:error:{type(e).__name__}')
-            add(lambda E: f'ChkBct {E.elem(infoset(el))} {exp(E)}', ('bct', 'malformed', m))
+            add(lambda E: f'ChkBct {E.elem(el_in)} {exp(E)}', ('bct', 'malformed', m))
         made += 1
         ctx.case(('mal', fmt, repr(m)))
 
@@ -898,7 +935,8 @@ def run(ctx):
         level='proof',
         rule='documents of 1-3 sentences, each an n-best list of 1-3 derivations over the same token objects (grammar-licensed English/Japanese derivations built '
              'with the real rule functions over the shipped lexicons, and arbitrary well-formed trees), tokens over printable text incl. < > & quotes and '
-             'non-ASCII; each document goes through xml_of/to_jigg_xml (both orders), the file readers, build_ccg_tree and normalize_tokens; plus a malformed '
+             'non-ASCII; each document goes through xml_of/to_jigg_xml (both orders), the file readers, build_ccg_tree and normalize_tokens; build_ccg_tree is called three times on every <ccg> (the sentence must serialise identically before and after, '
+             'stay self-contained, and every call must give the same tree); plus a malformed '
              'stream (dropped attributes, dangling/cyclic/duplicated ids, wrong child counts, bad category texts) on which model and implementation must agree '
              'on error vs result; non-trivial = more than one tree or an internal node; distinct by content',
         assumptions=['token keys are XML names and do not collide with start/span/cat (xml) or id/start/cat/surf (jigg); the five C&C attributes are present for read_xml',
